@@ -33,7 +33,7 @@ from mc import c14_grammar as G
 from mc import c14_judge as J
 from mc import c14_lane as L
 from mc import corpus
-from mc.common import Ctx, Result, Violation, log, scratch, seeded_order
+from mc.common import Ctx, Result, Violation, log, scratch, scratch_root, seeded_order
 from mc.kernel import ExecError, chunked, pmap, run_isolated
 
 PROPERTY = "C14"
@@ -120,9 +120,10 @@ def judge(prog: dict[str, Any], dres: dict[str, Any], nres: dict[str, Any], main
         # the toy fixture stubs lack a symbol the checker looks up (e.g. typing_extensions.TypeAliasType for a `type`
         # statement under a 3.10 target): says nothing about the parsers; counted, never reported
         st["outcome"] = "fixture-artefact-crash"
+    elif dc and nc:
+        st["outcome"] = "both-crash"  # no diagnostics on either side; crash freedom is not this property
     elif dc or nc:
-        if bool(dc) != bool(nc) or _crash_kind(dc) != _crash_kind(nc):
-            diff(f"crash|default={_crash_kind(dc)}|native={_crash_kind(nc)}", f"default crashed={dc} native crashed={nc}")
+        diff(f"crash|default={_crash_kind(dc)}|native={_crash_kind(nc)}", f"default crashed={dc} native crashed={nc}")
         st["outcome"] = "crash"
     elif dres["blocker"] != nres["blocker"]:
         who = "default" if dres["blocker"] else "native"
@@ -353,6 +354,8 @@ def _module_round(progs: list[tuple[str, str]], meta: dict[str, Any], root: str,
     stray = [m for k in res for f, ms in per[k].items() if J.norm_path(f) not in known for m in ms]
     if stray:
         out["stats"]["stray_messages"] += len(stray)
+        if len(out["herr_soft"]) < 2:
+            out["herr_soft"].append(stray[0][:300])
     for n, (pid, text) in zip(names, progs):
         f = f"tmp/{n}"
         d = {"messages": per[False].get(f, []), "blocker": False, "crashed": None}
@@ -378,7 +381,7 @@ def _text_prog(pid: str, text: str, meta: dict[str, Any]) -> dict[str, Any]:
 def module_batch(item: dict[str, Any]) -> dict[str, Any]:
     """item: {"progs": [(id, text)...], "pyver", "flags"}."""
     root = scratch("c14", f"m{os.getpid()}")
-    out = {"findings": [], "herr": [], "stats": Counter(), "kinds": set(), "samples": [], "projection": [0, 0]}
+    out = {"findings": [], "herr": [], "herr_soft": [], "stats": Counter(), "kinds": set(), "samples": [], "projection": [0, 0]}
     alone = [p for p in item["progs"] if G.predicted_blocker(p[1])]
     together = [p for p in item["progs"] if not G.predicted_blocker(p[1])]
     out["stats"]["routed_alone"] += len(alone)
@@ -603,6 +606,7 @@ class Agg:
         self.herr: list[str] = []
         self.samples: list[Any] = []
         self.projection = [0, 0]
+        self.stray: list[str] = []
 
     def take(self, val: dict[str, Any], phase: str) -> None:
         for k, v in val["stats"].items():
@@ -610,6 +614,7 @@ class Agg:
             self.stats[f"{phase}:{k}"] += v
         self.kinds.update(val["kinds"])
         self.herr.extend(val["herr"])
+        self.stray.extend(val.get("herr_soft", []))
         if val.get("samples") and sum(1 for s in self.samples if s.get("phase") == phase) < 2:
             s = dict(val["samples"][0])
             s["phase"] = phase
@@ -639,6 +644,7 @@ def run(ctx: Ctx, phases: tuple[str, ...] = ("corpus", "grammar", "corrupt"), fa
     """`phases` / `families` (grammar id prefixes) restrict the run for detection demonstrations only; a restricted
     run reports exhaustive=False and skips the vacuity gates that need the left-out phases."""
     L.preload()
+    scratch_root()  # before any fork: workers then share (and the runner removes) one scratch tree
     cov: dict[str, Any] = {}
     agg = Agg()
     t0 = time.time()
@@ -846,6 +852,7 @@ def run(ctx: Ctx, phases: tuple[str, ...] = ("corpus", "grammar", "corrupt"), fa
     all_sigs = set(agg.sig_counts) | set(parse_counts)
     violations: list[Violation] = []
     per_sig = {}
+    parse_only: dict[str, Any] = {}
     for sig in sorted(all_sigs):
         direct = [f for f in agg.examples.get(sig, []) if f["lane"] == "single"]
         cands = sorted(direct + confirmed.get(sig, []), key=lambda f: (f["size"], str(f["replay"]["id"])))
@@ -855,8 +862,14 @@ def run(ctx: Ctx, phases: tuple[str, ...] = ("corpus", "grammar", "corrupt"), fa
             for f in cands[:KEEP_PER_SIG]:
                 violations.append(Violation(sig, f"{f['replay'].get('corruption') or f['replay']['id']} (py {'.'.join(map(str, f['replay']['pyver']))}): {f['what']}"[:600],
                                             {"replay": f["replay"], "occurrences_this_run": n}))
+        elif sig not in agg.sig_counts:
+            # a disagreement at the parse entry point that the complete builds of the same programs do not show (e.g.
+            # one front end accepts what the semantic analyzer then rejects with a blocking error anyway): the property
+            # is about what mypy reports, so this is recorded in the coverage, not reported
+            ex = by_sig_parse[sig][0]
+            parse_only[sig] = {"occurrences": n, "example": text_of[ex["pid"]][-120:], "what": ex["what"][:300]}
         else:
-            # seen in a sieve lane, not reproduced by the program alone: reported as such, never dropped
+            # seen in a real multi-module build, not reproduced by the program alone: reported as such, never dropped
             ex = (agg.examples.get(sig) or by_sig_parse.get(sig) or [{}])[0]
             lane = ex.get("lane", "?")
             s2 = f"{lane}-lane-only|{sig}"
@@ -884,10 +897,11 @@ def run(ctx: Ctx, phases: tuple[str, ...] = ("corpus", "grammar", "corrupt"), fa
         "diagnostics_with_column": int(s["located"]), "diagnostics_with_end": int(s["with_end"]),
         "diagnostics_on_eof_line": int(s["eof_line_diags"]),
         "diagnostics_in_files_outside_program": int(s["unknown_file_diags"]),
-        "stray_messages_module_lane": int(s["stray_messages"]),
+        "stray_messages_module_lane": int(s["stray_messages"]), "stray_message_samples": agg.stray[:3],
         "distinct_message_kinds": len(agg.kinds),
         "projection_selfcheck": {"programs": agg.projection[0], "mismatches": agg.projection[1]},
         "signatures": {k: per_sig[k] for k in sorted(per_sig)},
+        "parse_entry_disagreements_not_shown_by_builds": parse_only,
         "versions": [f"3.{v[1]}" for v in VERSIONS], "grammar_version": f"3.{GRAMMAR_PYVER[1]}",
         "exhaustive": not agg.herr and set(phases) >= {"corpus", "grammar", "corrupt"} and families is None,
         "cpu_seconds_by_phase": cpu_by_phase, "cpu_seconds_total": round(_cpu() - c0, 1),
